@@ -41,6 +41,31 @@ class Flow:
         self.sites: dict[int, list[DefSite]] = {}
         self._collect()
         self._solve()
+        # comprehension-bound names: id(Name load node) -> (iter expr, index path)
+        self.comp_bind: dict[int, tuple[ast.AST, tuple]] = {}
+        self._collect_comps()
+
+    def _collect_comps(self) -> None:
+        def visit(node, env):
+            if isinstance(node, (ast.ListComp, ast.SetComp, ast.GeneratorExp, ast.DictComp)):
+                env = dict(env)
+                for g in node.generators:
+                    visit(g.iter, env)
+                    for nm, path in _targets(g.target):
+                        env[nm.id] = (g.iter, path)
+                    for c in g.ifs:
+                        visit(c, env)
+                for e in ([node.key, node.value] if isinstance(node, ast.DictComp) else [node.elt]):
+                    visit(e, env)
+                return
+            if isinstance(node, (ast.FunctionDef, ast.AsyncFunctionDef, ast.Lambda, ast.ClassDef)) and node is not self.d.node:
+                return
+            if isinstance(node, ast.Name) and isinstance(node.ctx, ast.Load) and node.id in env:
+                self.comp_bind[id(node)] = env[node.id]
+            for ch in ast.iter_child_nodes(node):
+                visit(ch, env)
+
+        visit(self.d.node, {})
 
     # -- definition sites ------------------------------------------------------
     def _add(self, nid: int, site: DefSite) -> None:
@@ -154,6 +179,20 @@ class Flow:
         if isinstance(e, ast.Constant):
             return {f"const:{e.value!r}"}
         if isinstance(e, ast.Name):
+            if id(e) in self.comp_bind:
+                it, path = self.comp_bind[id(e)]
+                src = it
+                # for a, b in zip(xs, ys): a ← elem(xs), b ← elem(ys)
+                if path and isinstance(it, ast.Call) and isinstance(it.func, ast.Name) and it.func.id == "zip" and isinstance(path[0], int) and path[0] < len(it.args) and len(path) == 1:
+                    src = it.args[path[0]]
+                    path = ()
+                if isinstance(it, ast.Call) and isinstance(it.func, ast.Name) and it.func.id == "enumerate" and path == (1,) and it.args:
+                    src = it.args[0]
+                    path = ()
+                base = self.roots(src, at, depth - 1, _seen)
+                if path:
+                    return {f"item(elem({r}))" for r in base}
+                return {f"elem({r})" for r in base}
             sites = self.rdefs(e.id, at)
             if not sites:
                 if self.is_local(e.id):
@@ -233,7 +272,9 @@ class Flow:
             return out
         if isinstance(e, ast.Dict):
             return {"new:dict"}
-        if isinstance(e, (ast.ListComp, ast.SetComp, ast.GeneratorExp, ast.DictComp)):
+        if isinstance(e, (ast.ListComp, ast.SetComp, ast.GeneratorExp)):
+            return {"new:comp"} | {f"in({r})" for r in R(e.elt)}
+        if isinstance(e, ast.DictComp):
             return {"new:comp"}
         if isinstance(e, (ast.BinOp, ast.UnaryOp, ast.Compare, ast.JoinedStr)):
             return {"new:expr"}
